@@ -285,15 +285,41 @@ func Yield(enabled func() bool, label string) bool {
 	return true
 }
 
+// SerialLabels names the go-statement sites ("<file>:<func>") whose children,
+// when spawned by unmanaged goroutines, are run strictly one after the other in
+// spawn order. Harnesses use it to make explicit-state replays deterministic;
+// the interleavings of those children are explored separately (E3).
+var SerialLabels sync.Map
+
+var (
+	serialMu   sync.Mutex
+	serialLast = map[string]chan struct{}{}
+)
+
 // Go starts fn in a new goroutine. From a managed thread the child becomes a
 // managed thread (spawn is a schedule point); otherwise it is a plain goroutine
 // counted in Transient until it returns.
-func Go(fn func()) {
+func Go(label string, fn func()) {
 	s, th := current()
 	if th == nil {
 		atomic.AddInt64(&Transient, 1)
+		var prev, done chan struct{}
+		if serial, _ := SerialLabels.Load(label); serial != nil {
+			// children spawned at this site run one after the other, in spawn order
+			serialMu.Lock()
+			prev = serialLast[label]
+			done = make(chan struct{})
+			serialLast[label] = done
+			serialMu.Unlock()
+		}
 		go func() {
 			defer atomic.AddInt64(&Transient, -1)
+			if prev != nil {
+				<-prev
+			}
+			if done != nil {
+				defer close(done)
+			}
 			fn()
 		}()
 		return
